@@ -81,6 +81,13 @@ const HAND: &[Hand] = &[
     (false, r"((a)|(b))+", "", &["ab", "ba", "aab", "bbb"], &["$2$3"]),
     (false, r"(\d+)-(\d+)", "", &["10-20", "1-2 3-4 5-6", "a-b", "7-"], &["$2-$1", "$0", "\\\\", "$"]),
     (false, r"(x)?(y)?z", "", &["xyz", "yz", "z", "xz", "zxyz"], &["$1|$2"]),
+    // --- groups set on an attempt that fails, then a match without them (capture reset / restore)
+    (false, r"(?:x|(a))(b)c", "", &["abd xbc", "abc", "xbc abd", "abd"], &["[$1$2]", "$1"]),
+    (false, r"(a)?(?:b|c)d|ab(e)", "", &["abe", "abd", "cd abe", "ab"], &["<$1$2>"]),
+    (false, r"(?:(a)b|(a)c)d", "", &["abx acd", "abd", "acd abd"], &["$1|$2"]),
+    (false, r"(?:(\w)\d)*z|(\w)+y", "", &["a1b2y", "a1z", "a1b2z a1y"], &["[$1][$2]"]),
+    (false, r"(a+)+b|(a+)c", "", &["aaac", "aab", "aac aab"], &["$1.$2"]),
+    (false, r"(?:(x)|y)(?:(z)|w)q|yw", "", &["xzp yw", "xzq", "ywq"], &["$1$2"]),
     // --- ^ under m (line-seek loop), $, dot and s
     (false, r"^a", "m", &["a\na\nb", "b\na", "\n\na", "ba\nab\n", "a"], &["^"]),
     (false, r"^\w+$", "m", &["ab\ncd\n\nef", "ab cd\nef", "\n", "x"], &["<$0>"]),
